@@ -287,8 +287,10 @@ def solve_hist(ctx, rng, idx):
         stop["maxit"] = ndry
     # every generated solve carries a maxit: a trajectory that blows up (NaN time) would otherwise loop forever
     stop.setdefault("maxit", ndry + (2 if skind == "tottime" else 25))
+    if rng.random() < 0.5:      # the criteria are a dictionary: the order in which the caller wrote them must not matter
+        stop = dict(reversed(list(stop.items())))
     ctx.describe(integrator=iname, cfl=cfl, dtlocal=dtlocal, t_start=t0, call="restart" if restart else "solve", start_it=f.it,
-                 tsave=tsave, tsave_kind=tkind, stop=stop, dry_run_times=times, **s.desc())
+                 tsave=tsave, tsave_kind=tkind, stop=stop, stop_keys_in_order=list(stop), dry_run_times=times, **s.desc())
     solver = make()
     warm = bool(rng.random() < 0.3) and not (restart and iname == "gear")
     if warm:      # the SAME integrator object has already been used with another CFL number (solve, sometimes followed by a restart)
